@@ -61,7 +61,13 @@ def runPairLine (line : String) : List String × (TextStats → TextStats) :=
     match toks, resp.splitOn " ## " with
     | ("Y" :: id :: tag :: desc), [a, b] =>
       let d := " ".intercalate desc
-      if tag.startsWith "C17" then
+      if tag.length > 3 && tag.startsWith "C" && (tag.toList.getD 3 ' ') == ':' && !tag.startsWith "C17" then
+        -- a by-construction pair belonging to the property named by the tag (`C09:alias` …)
+        let prop := (tag.take 3).toString
+        (if a.trimAscii.toString != b.trimAscii.toString then
+           ([s!"V {id} pair PROP op=0 {prop} {tag} {d}: expected {a.trimAscii.toString.take 200} got {b.trimAscii.toString.take 200}"], fun s => { s with cases := s.cases + 1 })
+         else ([s!"V {id} pair OK ops=1 nt=1"], fun s => { s with cases := s.cases + 1, nontrivial := s.nontrivial + 1 }))
+      else if tag.startsWith "C17" then
         -- a command-line invocation whose exit status and output are fixed by the tool's own rules
         (if a.trimAscii.toString != b.trimAscii.toString then
            ([s!"V {id} cli PROP op=0 C17 {d}: expected {a.trimAscii.toString} got {b.trimAscii.toString}"], fun s => { s with cases := s.cases + 1 })
